@@ -140,6 +140,60 @@ def rule_I1(ctx) -> None:
     ctx.floor("I1", "pythonize_* functions", n, 4)
 
 
+K6_PROBES = ["XOffset", "ABC", "a", "", "Ab", "aB", "_X", "1A", "XY_z", "URLPath", "x", "Zz"]
+
+
+def rule_K6(ctx, rule: str = "K6") -> None:
+    """casing.lowercase_first - the last step of camel_case, hence of every JSON key - changes the first character only, evaluated at
+    distinguished strings (a run of leading capitals, a single letter, the empty string): a field whose first word is one letter
+    (x_offset -> XOffset) keeps the capital of its second word (xOffset, which is protoc's json_name)"""
+    from .. import concrete
+    from ..sym import from_ast as _from_ast
+    cas = ctx.repo.mod(M_CASING)
+    name = "lowercase_first:first-character-only"
+    if not cas.has("lowercase_first"):
+        ctx.inconclusive(rule, name, "casing.lowercase_first not found", cas.rel)
+        return
+    fn = cas.func("lowercase_first")
+    ctx.analysed("lowercase_first")
+    p0 = fn.args.args[0].arg
+    paths = Interp(cas, fork_ifexp=True).run(fn)
+    ctx.count(len(paths))
+    env0 = {k: v for k, v in cas.consts.items() if isinstance(v, (str, int))}
+    for st_ in cas.tree.body:
+        tg_ = st_.targets[0] if isinstance(st_, ast.Assign) and len(st_.targets) == 1 else (st_.target if isinstance(st_, ast.AnnAssign) and st_.value is not None else None)
+        if isinstance(tg_, ast.Name) and tg_.id not in env0 and "re." in ast.unparse(st_.value):
+            try:
+                env0[tg_.id] = concrete.ev(_from_ast(st_.value), dict(env0))
+            except concrete.Unknown:
+                pass
+    bad = unknown = None
+    for text in K6_PROBES:
+        env = dict(env0)
+        env[p0] = text
+        try:
+            sel = [p for p in paths if all(bool(concrete.ev(k, env)) == bool(v) for k, v in p.valuation.items() if k[0] != "raises")]
+            if len(sel) != 1 or sel[0].outcome != "return" or sel[0].value is None:
+                unknown = unknown or f"{text!r}: {len(sel)} paths selected"
+                continue
+            got = concrete.ev(sel[0].value, env)
+        except concrete.Unknown as e:
+            unknown = unknown or f"{text!r}: {e}"
+            continue
+        want = text[:1].lower() + text[1:]
+        if got != want:
+            bad = bad or (text, got, want)
+    if bad:
+        text, got, want = bad
+        ctx.refuted(rule, name, f"{text!r}->{got!r}", cas.loc(fn), f"lowercase_first({text!r}) is {got!r}, not {want!r}: more than the first character is changed, so the camelCase key of a field whose first "
+                    "word is a single letter (x_offset) loses the capital that starts its second word and is no longer the JSON name protoc assigns (xOffset)",
+                    "M(x_offset=1).to_json() parsed by google.protobuf.json_format")
+    elif unknown:
+        ctx.inconclusive(rule, name, unknown[:300], cas.loc(fn))
+    else:
+        ctx.proved(rule, name, cas.loc(fn), f"{len(K6_PROBES)} distinguished strings")
+
+
 def rule_I2(ctx, rule: str = "I2") -> None:
     """enum member names: (a) only a true prefix of the proto name is ever cut off (never a match found in the middle),
     (b) what is left is not empty, (c) the enum compiler makes sure the members of one enum stay distinct"""
@@ -755,6 +809,8 @@ def run(ctx) -> None:
     rule_I2(ctx)
     ctx.rules_run.append("I3")
     rule_I3(ctx)
+    ctx.rules_run.append("K6")
+    rule_K6(ctx)
     from . import jsonrules
     ctx.rules_run += ["J4", "K2"]
     jsonrules.rule_J4(ctx)      # from_dict maps every key through safe_snake_case (the only decided part of the retraction clause)
